@@ -94,7 +94,7 @@ def _tree_digest(root):
     return h.hexdigest()[:16], n
 
 
-def real_runs_differ(files, seeds=range(12), options=None):
+def real_runs_differ(files, seeds=range(12), options=None, only=None):
     """the real `python -m ford` on the same project under several PYTHONHASHSEEDs: {digest: [seeds]}"""
     import tempfile
     d = tempfile.mkdtemp(prefix="fvc12-")
@@ -118,7 +118,11 @@ def real_runs_differ(files, seeds=range(12), options=None):
             if r.returncode != 0:
                 seen.setdefault("exit%d" % r.returncode, []).append(s)
                 continue
-            dg, n = _tree_digest(os.path.join(d, "doc"))
+            if only:   # digest of one output file
+                with open(os.path.join(d, "doc", only), "rb") as fh:
+                    dg = hashlib.sha256(fh.read()).hexdigest()[:16]
+            else:
+                dg, n = _tree_digest(os.path.join(d, "doc"))
             seen.setdefault(dg, []).append(s)
             if len(seen) > 1:
                 break
@@ -226,11 +230,12 @@ def file_order_3(ctx):
 # ---------------------------------------------------------------------------------------
 # O2: iteration order of the sets built by correlate()
 # ---------------------------------------------------------------------------------------
-USE_LINES = ["use a", "use b", "USE A", "use ext1", "use ext2", "implicit none"]
+USE_LINES = ["use a", "use b", "USE A", "use ext1", "use ext2", "implicit none", "use a, only: ta, tq, tz, va, vb"]
 
 
 def _use_files(x, y):
-    return {"a.f90": ["module a", "type ta", "integer :: c", "end type ta", "end module a",
+    return {"a.f90": ["module a", "type ta", "integer :: c", "end type ta", "type tq", "integer :: c", "end type tq", "type tz", "integer :: c", "end type tz",
+                      "integer :: va, vb", "end module a",
                       "module b", "type, extends(ta) :: tb", "integer :: d", "end type tb", "end module b"],
             "b.f90": ["module d", x, y, "type(ta) :: v", "end module d"]}
 
@@ -248,14 +253,30 @@ def _uses_order(p):
     return choice.apply(lambda *xs: tuple(xs), *out) if out else ()
 
 
+def _export_order(p):
+    """the order in which each module exports its public entities (what dump_modules writes to modules.json with `externalize`)"""
+    out = []
+    for m in p.modules:
+        for attr in ("pub_procs", "pub_absints", "pub_types", "pub_vars"):
+            out.append("<" + attr)
+            out.extend(list(getattr(m, attr, {}) or {}))
+    return choice.apply(lambda *xs: tuple(str(x) for x in xs), *out) if out else ()
+
+
 def _observe2(p):
-    return _observe(p), _uses_order(p)
+    return _observe(p), _uses_order(p), _export_order(p)
 
 
 def replay_uses_order(w):
     files = {name: "\n".join(lines) + "\n" for name, lines in _use_files(w["use1"], w["use2"]).items()}
     seen = real_runs_differ(files)
     return len(seen) > 1, {"uses": [w["use1"], w["use2"]], "output digests by PYTHONHASHSEED": seen}
+
+
+def replay_export_order(w):
+    files = {name: "\n".join(lines) + "\n" for name, lines in _use_files(w["use1"], w["use2"]).items()}
+    seen = real_runs_differ(files, options={"externalize": "true"}, only="modules.json")
+    return len(seen) > 1, {"uses": [w["use1"], w["use2"]], "digests of modules.json by PYTHONHASHSEED": seen}
 
 
 @obligation("C12", "O2.correlate-set-order", engine="SX(CV)+permutation stub", timeout=1800)
@@ -291,6 +312,7 @@ def correlate_set_order(ctx):
             E.require(False, "set iteration order in correlate() changes the order of the project's entity lists")
             return
         E.require(choice.apply(lambda a, b: a == b, ref[0][1], got[0][1]), "set iteration order in correlate() changes names / identifiers")
+        E.require(choice.apply(lambda a, b: a == b, ref[2], got[2]), "the order in which a module exports its public entities (modules.json) is a set's iteration order")
         if kf is None:
             E.require(choice.apply(lambda a, b: a == b, ref[1], got[1]), "the order in which a page lists the used modules is the set's iteration order")
 
@@ -301,8 +323,102 @@ def correlate_set_order(ctx):
         if label in seen or not snap:
             continue
         seen.add(label)
-        ctx.report(label, snap, replay_uses_order)
+        ctx.report(label, snap, replay_export_order if "modules.json" in label else replay_uses_order)
     for lab in ("both runs", "non-identity order"):
+        if E.reached.get(lab):
+            ctx.twins += 1
+        else:
+            ctx.inconclusive.append(f"vacuity: '{lab}' never reached")
+    ctx.sample({"paths": E.paths})
+
+
+# ---------------------------------------------------------------------------------------
+# O2b: the library that orders the modules (toposort) works on sets of module OBJECTS, hashed by memory address: whatever order it
+# meets them in, the numbering of equally named modules (dup, dup~2: their URLs) must not change
+# ---------------------------------------------------------------------------------------
+DUP_UNITS = [("module dup", "end module dup"), ("module Dup", "end module Dup"), ("module other", "end module other")]
+
+
+def _dup_files(u1, u2):
+    return {"a.f90": [u1[0], "integer :: from_a", u1[1]], "b.f90": [u2[0], "integer :: from_b", u2[1]],
+            "c.f90": ["module third", "integer :: from_c", "end module third"]}
+
+
+class _Toposort:
+    """toposort's algorithm with every level set iterated in an arbitrary (solver-chosen) order before it is sorted"""
+
+    @staticmethod
+    def toposort(data):
+        data = {k: set(v) - {k} for k, v in data.items()}
+        extra = set()
+        for v in data.values():
+            extra |= v
+        for k in extra - set(data):
+            data[k] = set()
+        while True:
+            ordered = set(k for k, dep in data.items() if not dep)
+            if not ordered:
+                break
+            yield ordered
+            data = {k: (dep - ordered) for k, dep in data.items() if k not in ordered}
+        if data:
+            raise ValueError("circular dependencies")
+
+    @classmethod
+    def toposort_flatten(cls, data, sort=True):
+        out = []
+        for level in cls.toposort(data):
+            items = list(iter(permset.PermSet(level)))
+            out.extend(sorted(items) if sort else items)
+        return out
+
+
+def _dup_observe(p):
+    return tuple((os.path.basename(str(m.filename)), str(m.ident)) for m in sorted(p.modules, key=lambda m: os.path.basename(str(m.filename))))
+
+
+def replay_dup(w):
+    files = {name: "\n".join(lines) + "\n" for name, lines in _dup_files(w["u1"], w["u2"]).items()}
+    seen = real_runs_differ(files, seeds=range(16))
+    return len(seen) > 1, {"files": _dup_files(w["u1"], w["u2"]), "output digests by PYTHONHASHSEED": seen}
+
+
+@obligation("C12", "O2b.module-numbering-order", engine="SX(CV)+permutation stub", timeout=900)
+def module_numbering(ctx):
+    """three files with one module each, two of them equally named (symbolic letter case): with the level sets of the module ordering
+    iterated in an arbitrary order, every module keeps the identifier (and so the URL) it has in the reference run"""
+    import ford.fortran_project as fp
+    import ford.sourceform as sf
+
+    ctx.encode_fn(fp.Project.correlate)
+    ctx.encode_fn(sf.NameSelector.get_name)
+    ctx.stubs.append("toposort replaced by the same algorithm with each level set iterated in a solver-chosen order (fv/permset.py)")
+    ctx.bounds.update({"modules": 3, "unit spellings": len(DUP_UNITS)})
+
+    def h(E):
+        permset.reset()
+        i1 = CV.choice(E, "u1", list(range(len(DUP_UNITS)))).concretize()
+        i2 = CV.choice(E, "u2", list(range(len(DUP_UNITS)))).concretize()
+        files = _dup_files(DUP_UNITS[i1], DUP_UNITS[i2])
+        ref = parserh.project(files, post=_dup_observe, **SETTINGS)
+        permset.reset()
+        got = parserh.project(files, post=_dup_observe, more_patches={(fp, "toposort"): _Toposort}, **SETTINGS)
+        order = list(permset.LOG)
+        E.reachable("both runs")
+        if any(o[1] != tuple(sorted(o[1])) for o in order) or len(order) > 0:
+            E.reachable("arbitrary order")
+        E.e.snapshot = lambda m: {"u1": list(DUP_UNITS[i1]), "u2": list(DUP_UNITS[i2]), "order": [list(o[1]) for o in order]}
+        E.require(ref == got, "the identifiers (URLs) of equally named modules depend on the order in which the module ordering meets them")
+
+    E = sym.Engine(ctx, max_paths=5000, incremental=True)
+    found = E.explore(h, on_violation=lambda f: True)
+    seen = set()
+    for (label, m, pc), snap in zip(found, E.snapshots):
+        if label in seen or not snap:
+            continue
+        seen.add(label)
+        ctx.report(label, snap, replay_dup)
+    for lab in ("both runs", "arbitrary order"):
         if E.reached.get(lab):
             ctx.twins += 1
         else:
